@@ -101,6 +101,13 @@ def kinds():
             evs += ["acc", f"rx {i} " + nodegen.cer("peer1.x", "4", n(), n()), f"eof {i}"]
         return evs + ["tick"]
 
+    def inbound_req_raise(N):
+        # the application's handler raises: the node answers 5012 itself
+        evs = ["start fail", "acc", "rx 0 " + nodegen.cer("peer1.x", "4", n(), n()), "outcome 0 raise"]
+        for i in range(N):
+            evs += ["rx 0 " + nodegen.ccr(n(), n(), "peer1.x")]
+        return evs + ["eof 0", "tick"]
+
     def conn_req_answered(N):
         # N connections, each carrying one request that the application answers before the connection ends
         evs = ["start fail"]
@@ -159,7 +166,7 @@ def kinds():
 
     return {"inbound_req": inbound_req, "inbound_req_norc": inbound_req_norc, "hard_write_error": hard_write_error,
             "rejected_req": rejected_req, "dup_reject": dup_reject, "dwr_in": dwr_in, "dwr_out": dwr_out,
-            "outbound_req": outbound_req, "outbound_req_timeout": outbound_req_timeout, "conn_ok": conn_ok, "conn_req_answered": conn_req_answered, "conn_node_closes": conn_node_closes, "conn_unknown": conn_unknown,
+            "outbound_req": outbound_req, "outbound_req_timeout": outbound_req_timeout, "conn_ok": conn_ok, "inbound_req_raise": inbound_req_raise, "conn_req_answered": conn_req_answered, "conn_node_closes": conn_node_closes, "conn_unknown": conn_unknown,
             "conn_timeout": conn_timeout, "conn_already": conn_already, "dial_refused": dial_refused,
             "dial_async_fail": dial_async_fail, "dial_rejected": dial_rejected, "dial_established": dial_established}
 
@@ -167,6 +174,16 @@ def kinds():
 def final(lines: list[str]):
     size = next((kv(l) for l in reversed(lines) if l.startswith("SIZE ")), {})
     resl = next((kv(l) for l in reversed(lines) if l.startswith("RES ")), {})
+    # every container attribute of the node and the applications, whatever its name (a table added tomorrow is covered too);
+    # the named tables above, the retransmission window and the statistics are judged separately / documented fixed-size
+    allc = next((kv(l) for l in reversed(lines) if l.startswith("ALL ")), {})
+    for k in ("node._app_waiting_answer", "node._sent_answers", "node._peer_waiting_answer", "node._origin_waiting_answer",
+              "node.connections", "node.peer_sockets", "node.socket_peers", "node._half_ready_connections", "_"):
+        allc.pop(k, None)
+    for k in list(allc):
+        if k.endswith("._answer_waiting"):
+            allc.pop(k)
+    size["__all__"] = allc
     return size, resl
 
 
@@ -194,7 +211,7 @@ def run(res: Result, tier: str, seed: int):
             continue
         size, resl = final(r)
         by_kind.setdefault(name, []).append((N, size, resl, line))
-        pr, pm = nodecheck.project(r[-12:], KEEP), nodecheck.project(m[-12:], KEEP)
+        pr, pm = nodecheck.project(r, KEEP)[-8:], nodecheck.project(m, KEEP)[-8:]
         if pr != pm:
             div.append({"line": line[:1500], "real": " / ".join(pr)[:800], "model": " / ".join(pm)[:800]})
     for name, rows in by_kind.items():
@@ -202,6 +219,8 @@ def run(res: Result, tier: str, seed: int):
         for N, s, rr, line in rows[1:]:
             grow = [k for k in ("conns", "socks", "sockPeers", "half", "appW", "peerW", "peerWc", "origW", "ansW") if s.get(k) != s0.get(k)]
             grow += [k for k in ("socketsOpen", "workersLive") if rr.get(k) != r0.get(k)]
+            a0, a1 = s0.get("__all__", {}), s.get("__all__", {})
+            grow += [k for k in sorted(set(a0) | set(a1)) if a0.get(k) != a1.get(k)]
             if grow:
                 fails.append({"what": f"retained state grows with the number of completed '{name}' transactions / attempts: "
                                       f"{', '.join(grow)}", "kind": name, "N": [N0, N],
